@@ -44,6 +44,13 @@ theorem parse_idempotent (cfg : Cfg) (ls : List Str) : parse cfg (parse cfg ls).
 theorem bootstrap_keeps_texts (cfg : Cfg) (ls : List Str) (h : cfg.ignoreBlank = false) :
     (bootstrap cfg ls).texts = ls := bootstrap_texts_noignore cfg ls h
 
+/-- With `ignore_blank_lines` a bootstrap can only drop lines, and only blank ones: the
+result's texts are a sublist of the input and every non-blank line survives, in order. -/
+theorem bootstrap_drops_only_blank (cfg : Cfg) (ls : List Str) :
+    (bootstrap cfg ls).texts.Sublist ls ∧
+    (bootstrap cfg ls).texts.filter (fun x => !isBlank x) = ls.filter (fun x => !isBlank x) :=
+  bootstrap_texts cfg ls
+
 /-! ## commit -/
 
 /-- **After `commit` the tree is that of a fresh parse**, for every state whatsoever (any
